@@ -53,7 +53,11 @@ func genRules(rng *rand.Rand) []refmodel.Rule {
 		if rng.IntN(8) == 0 {
 			ru.Actions = append(ru.Actions, []string{"list", "*", "GET", "get ", "deleteversion"}[rng.IntN(5)])
 		}
-		for j, np := 0, 1+rng.IntN(2); j < np; j++ {
+		np := 1 + rng.IntN(2)
+		if rng.IntN(6) == 0 {
+			np = 0 // a grant that lists actions but no pattern (a policy typo): it grants nothing
+		}
+		for j := 0; j < np; j++ {
 			ru.Patterns = append(ru.Patterns, patterns[rng.IntN(len(patterns))])
 		}
 		rules = append(rules, ru)
@@ -173,6 +177,11 @@ func TestC01(t *testing.T) {
 				}
 				// 2. the caller's rules
 				rules := genRules(rng)
+				for _, ru := range rules {
+					if len(ru.Patterns) == 0 {
+						r.Count("rules_without_patterns", 1)
+					}
+				}
 				caller := realdb.Caller("eve@verif", rules)
 				who := httpdrv.Who{Login: "eve@verif", Node: "eve.verif", Rules: rules}
 				lv[1].srv.SetWho(addr, who)
@@ -205,11 +214,28 @@ func TestC01(t *testing.T) {
 				}
 				rng.Shuffle(len(calls), func(i, j int) { calls[i], calls[j] = calls[j], calls[i] })
 				var trace []string
+				// the HTML listing ("GET /") is a list like the API's: exactly the secrets the caller holds info on
+				dashboard := func(when string) {
+					l := lv[1]
+					want := l.m.List(func(n string) bool { return refmodel.Allowed(rules, "info", n) })
+					got, rep, ok := l.srv.Dashboard(addr, spoof)
+					r.Count("dashboard_pages_checked", 1)
+					r.Eval(1)
+					if !ok {
+						r.Violation("http-dashboard-differs", c, fmt.Sprintf("case %d, caller rules %v, %s: the listing page is a %d / cannot be parsed", c, rules, when, rep.Status), map[string]any{"rules": rules})
+					} else if fmt.Sprint(got) != fmt.Sprint(want) {
+						r.Violation("http-dashboard-differs", c, fmt.Sprintf("case %d, caller rules %v, %s: the listing page shows %v, the caller holds info on %v", c, rules, when, got, want), map[string]any{"setup": setup, "rules": rules})
+					}
+					if leaks(rep.Body, markers) {
+						r.Violation("http-metadata-carries-value", c, "the listing page contains secret value bytes", nil)
+					}
+				}
 				for ci, op := range calls {
 					if op.Kind == ops.Put {
 						markers = append(markers, op.Value)
 					}
 					if ci == len(calls)/2 {
+						dashboard("before the policy change")
 						// policy changes: from now on the same caller, at the same address, holds other rules
 						rules = genRules(rng)
 						caller = realdb.Caller("eve@verif", rules)
@@ -217,6 +243,7 @@ func TestC01(t *testing.T) {
 						lv[1].srv.SetWho(addr, who)
 						lv[1].tsrv.SetWho(addr, who)
 						r.Count("rule_changes_mid_case", 1)
+						dashboard("right after the policy change (no write in between)")
 					}
 					for _, l := range lv {
 						pre := l.m.Clone()
@@ -305,6 +332,7 @@ func TestC01(t *testing.T) {
 						}
 					}
 				}
+				dashboard("after the calls of the case")
 				// the hidden part of the state: a refused call has not used up a version number either. The next put
 				// by an entitled caller gets the number the acknowledged history says.
 				for _, l := range lv {
@@ -343,7 +371,7 @@ func TestC01(t *testing.T) {
 		sameLoginOtherGrants(t, r, dir)
 		denialWithFlakyAudit(t, r, dir)
 	}
-	r.Require("decisions_in_a_long_lived_server", "version_counter_probes", "overlapping_requests_same_login_other_grants", "denied_calls_with_flaky_audit", "rule_changes_mid_case", "concurrent_peer_replies", "concurrent_denied_calls", "cases", "http_cases_with_spoofed_identity_headers", "allowed_calls", "denied_calls", "denied_on_existing", "denied_on_absent")
+	r.Require("dashboard_pages_checked", "dashboard_pages_same_login_other_grants", "rules_without_patterns", "decisions_in_a_long_lived_server", "version_counter_probes", "overlapping_requests_same_login_other_grants", "denied_calls_with_flaky_audit", "rule_changes_mid_case", "concurrent_peer_replies", "concurrent_denied_calls", "cases", "http_cases_with_spoofed_identity_headers", "allowed_calls", "denied_calls", "denied_on_existing", "denied_on_absent")
 	r.Rule("case = (database state reached by 4-13 random superuser operations over a hostile 12-name pool incl. empty, reserved, newline, literal-'*' and path-like ('a/../b', 'a//b', 'a/b/') names; 0-3 random rules over the 5 actions (+unknown ones) and 23 exact/wildcard/regexp-meta patterns); then all 9 operations x all 8 names x versions {0,1,2,9} in random order, at the DB API and through the HTTP handlers. Distinct = (level, operation, authorised?, secret exists?, model outcome class, rule count)")
 }
 
@@ -596,6 +624,22 @@ func sameLoginOtherGrants(t *testing.T, r *evid.Run, dir string) {
 		}
 		gate.Store(true)
 		wg.Wait()
+	}
+	// the listing page, loaded one after the other by peers that share a login name (or have none) but not their
+	// grants, with no write in between: each page is the loading peer's own
+	for round := 0; round < r.N(6, 40); round++ {
+		for _, pi := range rng.Perm(len(peers)) {
+			p := peers[pi]
+			got, rep, ok := srv.Dashboard(p.addr, nil)
+			r.Count("dashboard_pages_same_login_other_grants", 1)
+			want := "[]"
+			if p.allowed {
+				want = `["prod/key"[1]@1]`
+			}
+			if (!ok || fmt.Sprint(got) != want) && bad.Add(1) <= 3 {
+				r.Violation("http-dashboard-differs", -1, fmt.Sprintf("round %d: the listing page loaded by %s (login %q, tags %v, entitled=%t) is a %d showing %v, want %s", round, p.who.Node, p.who.Login, p.who.Tags, p.allowed, rep.Status, got, want), nil)
+			}
+		}
 	}
 	r.Eval(1)
 	r.Distinct("overlapping requests, same login, other grants")
